@@ -103,6 +103,9 @@ def lit(p):
 def match_tables(prog, owner):
     """[(arms: [(pattern, guard, body)])] for the literal matches of a body."""
     out = []
-    for m in prog.matches.get(owner, []):
-        out.append([(lit(a["pat"]), a["guard"], lit(a["body"])) for a in m["arms"]])
+    # literal matches written in a helper that was expanded into `owner` (engine/mir.py) belong to `owner` too
+    owners = [owner] + [h for c, h in getattr(prog, "inlined", []) if c == owner]
+    for o in owners:
+        for m in prog.matches.get(o, []):
+            out.append([(lit(a["pat"]), a["guard"], lit(a["body"])) for a in m["arms"]])
     return out
